@@ -12,6 +12,8 @@ def check(ix, rep):
         if m.mode == 'offline':
             npure += pure.pure_handlers(ix, rep, m)
     rep.floor('offline handlers checked for state carried between evaluations', npure, 60)
+    nrs = pure.check_reflective_state(ix, rep)
+    rep.floor('functions checked for reflectively reached object state', nrs, 700)
     nfix = G.fixture_selfcheck(rep)
     rep.floor('constructs of the positive fixture matched', nfix, 6)
     ng = G.run_global(ix, rep)
@@ -27,5 +29,5 @@ def check(ix, rep):
         'module- or class-level mutable state and there is no mutable default argument. Hash-seed independent: no order-sensitive '
         'iteration over a set, no ordering by id()/hash(). The zero-expected rules are validated on every run against a positive fixture.')
     assumptions = ['sufficient condition: a behaviour-preserving mutate-and-restore idiom would be rejected (none exists in the repo)',
-                   'objects reached only through setattr/getattr strings are not tracked']
+                   'state reached through self.__dict__ / vars(self) / setattr / getattr with a computed name is not tracked by the effect analyses -- it is excluded outright (reflective-state clause of R-PURE)']
     return explanation, assumptions, 'one instance per analysed function (ownership), per handler (purity), per module (shared state, set order)', {'exhaustive': True}
